@@ -35,7 +35,7 @@ PROPS = {
     },
 }
 
-REFLECT_CLASS = {("C04", 2): ["F15"], ("C04", 3): ["F22"]}
+REFLECT_CLASS = {("C04", 2): ["F15"], ("C04", 3): ["F22"], ("C15", 5): ["F19"]}
 
 ST_NET, ST_COINS, ST_COUNTS, ST_POOLS, ST_STAKES, ST_HIST, ST_TXS, ST_FEES, ST_MULT, ST_CODE, ST_HDR, ST_CONFIRM = 1, 2, 4, 8, 16, 32, 64, 128, 256, 512, 1024, 2048
 ST_ALL = 4095
